@@ -116,3 +116,36 @@ def run_grouped(exe, cases, par=4, chunk=25, timeout=900):
             for c, r in zip(ch, rr):
                 out[c.get("id", 0)] = r
     return [out[c.get("id", 0)] for c in cases]
+
+
+def check_bumps(adrv, results):
+    """K-exact tie of AllocModel.bump_all: the locked bump allocators for U (columns + subscripts) and for L's subscripts,
+    replayed by the extracted model on the request sequence of each run (hook log, in lock order), must hand out the very
+    blocks the implementation handed out.  Returns {index: message} for the runs that differ and the number compared."""
+    import vf
+    lines, where = [], []
+    for k, r in enumerate(results):
+        for w in ("bump_u", "bump_l"):
+            lg = r.get(w) or []
+            if lg:
+                lines.append("BUMP %d %d | %s" % (lg[0][0], max(e[2] for e in lg), " ".join(str(e[1]) for e in lg)))
+                where.append((k, w, lg))
+    if not lines:
+        return {}, 0
+    rc, out, err = vf.sh2([adrv], inp="\n".join(lines) + "\n", timeout=600)
+    outl = out.strip().split("\n")
+    bad = {}
+    if rc != 0 or len(outl) != len(lines):
+        return {-1: "alloc model driver failed: %s" % (err[-200:] or out[-200:])}, 0
+    for ln, (k, w, lg) in zip(outl, where):
+        impl = [e[0] for e in lg]
+        if ln.strip() == "B ABORT":
+            bad.setdefault(k, "%s: the model takes the abort path but the implementation handed out %d blocks" % (w, len(lg)))
+            continue
+        mod = [int(x) for x in ln[2:].split()]
+        if mod != impl:
+            i = next(i for i in range(len(impl)) if i >= len(mod) or mod[i] != impl[i])
+            bad.setdefault(k, "%s allocator: request %d (size %d) was given the block starting at %d, the bump model gives %d: blocks "
+                              "overlap or leave a gap (previous block [%d,%d))" % (w, i, lg[i][1], impl[i], mod[i] if i < len(mod) else -1,
+                                                                                    lg[i - 1][0] if i else -1, (lg[i - 1][0] + lg[i - 1][1]) if i else -1))
+    return bad, len(lines)
